@@ -563,6 +563,41 @@ def sym_int_table(func_node, param, resolve=None):
                 if not pre.is_empty():
                     rows.append((pre, ("return", str(k) if as_str else k), ln, pre))
 
+    def bisect_cases(value, region):
+        """<bisect.bisect_right | bisect | bisect_left>(TABLE, <param>) [+/- c] over a constant sorted integer table -> [(sub-region,
+        position)]: the position is the number of entries <= x (right) / < x (left) -- piecewise constant in x, so the region is
+        split at the entries.  Read, not executed."""
+        off = 0
+        e = value
+        if isinstance(e, ast.BinOp) and isinstance(e.op, (ast.Add, ast.Sub)) and isinstance(e.right, ast.Constant) and isinstance(e.right.value, int):
+            off = e.right.value if isinstance(e.op, ast.Add) else -e.right.value
+            e = e.left
+        if not (isinstance(e, ast.Call) and norm(e.func) in ("bisect.bisect_right", "bisect.bisect", "bisect.bisect_left", "bisect_right", "bisect_left", "bisect")
+                and len(e.args) == 2 and not e.keywords and isinstance(e.args[1], ast.Name) and e.args[1].id == param):
+            return None
+        if isinstance(e.args[0], ast.Name) and resolve is not None:
+            table = resolve(e.args[0].id)
+        elif isinstance(e.args[0], (ast.Tuple, ast.List)) and all(isinstance(x_, ast.Constant) for x_ in e.args[0].elts):
+            table = [x_.value for x_ in e.args[0].elts]
+        else:
+            table = None
+        if not isinstance(table, (list, tuple)) or not table or not all(isinstance(x_, int) and not isinstance(x_, bool) for x_ in table) \
+                or list(table) != sorted(set(table)):
+            raise AnalysisError("dectable: bisect over something that is not a constant strictly increasing integer table: %s" % norm(value))
+        left = norm(e.func).endswith("bisect_left")
+        x = Term()
+        out = []
+        for k in range(len(table) + 1):
+            # right: table[k-1] <= x < table[k]      left: table[k-1] < x <= table[k]
+            sub = region
+            if k > 0:
+                sub = sub.intersect(x.cmp(ast.Gt() if left else ast.GtE(), table[k - 1]))
+            if k < len(table):
+                sub = sub.intersect(x.cmp(ast.LtE() if left else ast.Lt(), table[k]))
+            if not sub.is_empty():
+                out.append((sub, k + off))
+        return out
+
     def lookup_cases(value, region, env, ln):
         """value = TABLE[<index>] -> [(sub-region, element)]; out-of-range parts become IndexError rows"""
         if not (isinstance(value, ast.Subscript) and isinstance(value.value, ast.Name) and resolve is not None):
@@ -572,7 +607,12 @@ def sym_int_table(func_node, param, resolve=None):
             return None
         n = len(table)
         out = []
-        for sub, idx in _index_cases(value.slice, param, {k: v for k, v in env.items() if isinstance(v, Term)}, region):
+        if isinstance(value.slice, ast.Name) and isinstance(env.get(value.slice.id), Const) and isinstance(env[value.slice.id].value, int) \
+                and not isinstance(env[value.slice.id].value, bool):
+            cases_idx = [(region, env[value.slice.id].value)]        # an index fixed on this path (e.g. by a bisect case split)
+        else:
+            cases_idx = _index_cases(value.slice, param, {k: v for k, v in env.items() if isinstance(v, Term)}, region)
+        for sub, idx in cases_idx:
             if sub.is_empty():
                 continue
             if isinstance(idx, int):
@@ -604,7 +644,9 @@ def sym_int_table(func_node, param, resolve=None):
                 continue
             if isinstance(s, ast.Assign) and len(s.targets) == 1:
                 tgt = s.targets[0]
-                cases = lookup_cases(s.value, region, env, s.lineno)
+                cases = bisect_cases(s.value, region) if isinstance(tgt, ast.Name) else None
+                if cases is None:
+                    cases = lookup_cases(s.value, region, env, s.lineno)
                 if cases is not None:
                     # continue the rest of the block separately for every looked-up element
                     out = IntSet.empty()
@@ -821,6 +863,14 @@ def normalise_scale_function(func_node, resolve_const, resolve_seq):
     class Subst(ast.NodeTransformer):
         def __init__(self, env):
             self.env = env
+
+        def visit_Call(self, node):
+            if isinstance(node.func, ast.Name) and node.func.id == "len" and len(node.args) == 1 and not node.keywords \
+                    and isinstance(node.args[0], ast.Name) and node.args[0].id not in self.env:
+                seq = resolve_seq(node.args[0].id)
+                if isinstance(seq, (list, tuple)):
+                    return const_node(len(seq), node)
+            return self.generic_visit(node)
 
         def visit_Name(self, node):
             if isinstance(node.ctx, ast.Load):
